@@ -464,13 +464,22 @@ class Check:
             scens = list(self.scenario_stream(rng))
             self.run_parallel(scens)
             diverged, failing = self.judge(scens)
+            # report one failing scenario per kind of monitor message; scenarios that turn out to be recorded known
+            # findings do not use up the budget of real reports (otherwise copies of a known finding could hide a violation)
             seen = set()
-            for s, msgs in failing[:getattr(P, "MAX_REPORTS", 3)]:
+            looked = 0
+            for s, msgs in failing:
                 key = msgs[0].split()[0]
                 if key in seen:
                     continue
                 seen.add(key)
+                before = len(self.violations)
                 self.report_monitor_failure(s, msgs)
+                looked += 1
+                if len(self.violations) - before > 0 and len([v for v in self.violations if not v[1]]) >= 3:
+                    break
+                if looked >= getattr(P, "MAX_REPORTS", 12):
+                    break
             self.extra["divergent_scenarios"] = len(diverged)
             if diverged:
                 found = bool(self.violations)
